@@ -1,6 +1,6 @@
 ---------------------------- MODULE Gen_Input ----------------------------
 (* Generator binding YInput to the real Input implementations (C10): for every text of at most N
-   characters over a 16-symbol alphabet and every cursor offset in it, the answers the ABSTRACT
+   characters over an 18-symbol alphabet and every cursor offset in it, the answers the ABSTRACT
    input (YInput, the contract) gives to every operation of the trait -- peeks, the character-class
    queries, the document-indicator and plain-scalar look-aheads, raw reads and the bulk
    operations (skip_ws_to_eol with and without tabs, skip_while_non_breakz, skip_while_blank,
@@ -11,8 +11,8 @@
    then looks for a document in which the parser shows the difference.                          *)
 EXTENDS YInput, TLC, Json
 CONSTANTS N
-\* (<u288>, <u266>: characters whose code point ends in the byte of a space / a line feed)
-Sigma == {"a", " ", "\n", "\r", "<u233>", "#", "-", ".", ":", "\t", "<u0>", "1", ",", "[", "<u288>", "<u266>"}
+\* (<u288>, <u266>: characters whose code point ends in the byte of a space / a line feed; <u160>: white space for Unicode, not for YAML)
+Sigma == {"a", " ", "\n", "\r", "<u233>", "#", "-", ".", ":", "\t", "<u0>", "1", ",", "[", "<u288>", "<u266>", "_", "<u160>"}
 VARIABLES text, off, done
 Init == text = <<>> /\ off = 0 /\ done = FALSE
 Next == \/ (~done /\ Len(text) < N /\ \E c \in Sigma : text' = Append(text, c) /\ off' = 0 /\ done' = FALSE)
